@@ -52,12 +52,23 @@ class Env:
                 os.unlink(self.path + suffix)
             except FileNotFoundError:
                 pass
+        self.mode = mode
         self.store = sws.SqliteWorkflowStore(self.path, poll_interval=0.01, single_connection=(mode == "single"))
         self.state = None
         self.tick_iter: Any = None
         self.sub_iter: Any = None
         self.n_ev = 0
         self.n_tick = 0
+
+    def reopen(self) -> None:
+        """the process ends here without any shutdown call: whatever the store has not committed is gone
+        (closing a sqlite3 connection rolls its open transaction back); a new store opens the same file"""
+        conn = getattr(self.store, "_persistent_conn", None)
+        if conn is not None:
+            conn.close()
+        self.store = sws.SqliteWorkflowStore(self.path, poll_interval=0.01, single_connection=(self.mode == "single"))
+        self.state = None
+        self.tick_iter = None
 
     def ss(self) -> Any:
         if self.state is None:
@@ -88,9 +99,15 @@ async def _anext_or_end(it: Any) -> Any:
 
 
 def apply(env: Env, op: str) -> Any:
+    if op == "reopen":
+        env.reopen()
     st = env.store
 
     async def go() -> Any:
+        if op == "reopen":  # everything that was acknowledged before the process ended must still be there
+            return {"handlers": plain(sorted(await st.query(HandlerQuery()), key=lambda h: h.handler_id)),
+                    "events": plain(await st.query_events("r1")), "ticks": plain(await st.get_ticks("r1")),
+                    "state": plain(await env.ss().get_state())}
         if op == "upsert_running":
             return await st.update(PersistentHandler(handler_id="h1", workflow_name="wf", status="running", run_id="r1", started_at=T0))
         if op == "upsert_completed":
@@ -177,7 +194,7 @@ HANDLER_OPS = ["upsert_running", "upsert_completed", "upsert_other", "query_all"
 EVENT_OPS = ["append_event", "append_stop", "query_events", "query_events_after0"]
 TICK_OPS = ["append_tick", "append_tick_x3", "get_ticks", "stream_ticks_all", "tick_stream_open_read1", "tick_stream_read_rest"]
 STATE_OPS = ["state_set", "state_get", "state_get_state", "state_set_state", "state_clear", "state_edit", "state_seed_copy"]
-ALL_OPS = HANDLER_OPS + EVENT_OPS + TICK_OPS + STATE_OPS
+ALL_OPS = HANDLER_OPS + EVENT_OPS + TICK_OPS + STATE_OPS + ["reopen"]
 _DIR: dict[str, str] = {}
 
 
@@ -192,7 +209,8 @@ def run_sequence(seq: tuple[str, ...]) -> list[Any]:
     for i, op in enumerate(seq):
         ra, rb = apply(a, op), apply(b, op)
         if ra != rb:
-            family = ("state" if op.startswith("state") else "tick" if "tick" in op else "event" if "event" in op else "handler")
+            family = ("reopen" if op == "reopen" else "state" if op.startswith("state") else "tick" if "tick" in op
+                      else "event" if "event" in op else "handler")
             prior_state = any(o.startswith("state") for o in seq[:i])
             v.append(("single_connection_differs_from_per_call", {"op_family": family, "after_state_store_use": prior_state},
                       f"after {list(seq[:i])}: {op} -> per-call {ra}, single_connection {rb}"))
@@ -233,10 +251,11 @@ def work(case: Any) -> Any:
     return n, nontriv, out, {"prefix": list(prefix), "sequences": n}, n * (len(prefix) + depth - 1)
 
 
-RULE = ("every sequence (length <= 3 over all 25 operations; length <= 5 inside the tick family incl. a tick stream left open "
+RULE = ("every sequence (length <= 3 over all 26 operations; length <= 5 inside the tick family incl. a tick stream left open "
         "across appends, and length 4 over state-store x other-family operations) of handler upserts / queries / deletes / "
         "status updates, event appends / queries, tick appends / reads / paged streams and state-store operations (set, get, "
-        "get_state, set_state, clear, edit_state, seeding a second run from the first) on two real DB files: "
+        "get_state, set_state, clear, edit_state, seeding a second run from the first) and 'reopen' (the process ends without "
+        "a shutdown call, a new store opens the same file and reads everything back) on two real DB files: "
         "single_connection=True vs per-call connections; results and raised exceptions compared after every step; "
         "non-trivial = sequences of length >= 2")
 
@@ -250,7 +269,7 @@ def run(tier: str, seed: int) -> Any:
     for a in tick_al:
         cases.append(([a], 5 if tier != "quick" else 4, tick_al))
     mixed = ["state_set", "state_get_state", "state_edit", "state_clear", "upsert_running", "query_all", "append_event", "query_events",
-             "append_tick", "get_ticks", "status_idle"]
+             "append_tick", "get_ticks", "status_idle", "reopen"]
     for a in mixed:
         cases.append(([a], 4 if tier != "quick" else 3, mixed))
     return run_grid(PID, RULE, cases, work, seed=seed, chunksize=1, assumptions=[
